@@ -167,7 +167,10 @@ def poll_ignore_interrupts(fds, timeout=None):
 
     poller = select.poll()
     for fd in fds:
-        poller.register(fd, select.POLLIN | select.POLLPRI | select.POLLHUP | select.POLLERR)
+        # Not POLLPRI: urgent (out-of-band) data cannot be fetched with
+        # read(), so reporting the descriptor as ready for it makes the
+        # caller's read() block, whatever the timeout was.
+        poller.register(fd, select.POLLIN | select.POLLHUP | select.POLLERR)
 
     while True:
         try:
